@@ -424,6 +424,9 @@ pub enum ReadSched {
     /// chunks of at most `chunk` bytes; every `every`-th call fails with ErrorKind::Interrupted (EINTR, never twice in
     /// a row): a retryable error, the read is simply made again
     Interrupted { chunk: usize, every: u32 },
+    /// chunks of at most `chunk` bytes; the `nth` call (1-based, counted over the life of the stream) fails ONCE with a
+    /// non-retryable kind (0 Other, 1 TimedOut, 2 WouldBlock, 3 BrokenPipe): a transient disk / network-filesystem error
+    FailOnce { chunk: usize, nth: u32, kind: u8 },
 }
 
 #[derive(Clone, Debug, PartialEq, Serialize, Deserialize)]
@@ -701,6 +704,17 @@ impl Read for SimStream {
                 return Err(std::io::Error::new(std::io::ErrorKind::Interrupted, "simulated EINTR"));
             }
         }
+        if let ReadSched::FailOnce { nth, kind, .. } = &self.sched {
+            if self.reads == *nth as u64 {
+                let k = match kind {
+                    0 => std::io::ErrorKind::Other,
+                    1 => std::io::ErrorKind::TimedOut,
+                    2 => std::io::ErrorKind::WouldBlock,
+                    _ => std::io::ErrorKind::BrokenPipe,
+                };
+                return Err(std::io::Error::new(k, "simulated transient I/O error"));
+            }
+        }
         let avail = (self.data.len() as u64).saturating_sub(self.pos) as usize;
         let mut n = buf.len().min(avail);
         if n > 0 {
@@ -709,6 +723,7 @@ impl Read for SimStream {
                 ReadSched::One => 1,
                 ReadSched::Fixed(k) => n.min((*k).max(1)),
                 ReadSched::Interrupted { chunk, .. } => n.min((*chunk).max(1)),
+                ReadSched::FailOnce { chunk, .. } => n.min((*chunk).max(1)),
                 ReadSched::Random { max, .. } => n.min(1 + self.rng.below((*max).max(1) as u64) as usize),
                 ReadSched::BufLike(cap) => {
                     // like a BufReader: serve from an internal buffer of `cap` bytes, refilled when empty
